@@ -81,9 +81,9 @@ pub const KINDS: &[Kind] = &[
     k("send-delay-with-internal-target", Want::Exec, "<send event=\"e\" delay=\"1s\" target=\"#_internal\"/>"),
     k("send-illegal-delayexpr", Want::Exec, "<send event=\"e\" delayexpr=\"'soon'\"/>"),
     k("send-negative-delayexpr", Want::Exec, "<send event=\"e\" delayexpr=\"'-5s'\"/>"),
-    k("send-huge-delay", Want::Any, "<send event=\"e\" delayexpr=\"'9223372036854775807ms'\"/>"),
-    k("send-huge-delay-days", Want::Any, "<send event=\"e\" delayexpr=\"'99999999999d'\"/>"),
-    k("send-huge-delay-overflow", Want::Any, "<send event=\"e\" delayexpr=\"'99999999999999999999999s'\"/>"),
+    k("send-huge-delay", Want::Exec, "<send event=\"e\" delayexpr=\"'9223372036854775807ms'\"/>"),
+    k("send-huge-delay-days", Want::Exec, "<send event=\"e\" delayexpr=\"'99999999999d'\"/>"),
+    k("send-huge-delay-overflow", Want::Exec, "<send event=\"e\" delayexpr=\"'99999999999999999999999s'\"/>"),
     k("send-erroring-eventexpr", Want::Exec, "<send eventexpr=\"{E}\"/>"),
     k("send-erroring-targetexpr", Want::Exec, "<send event=\"e\" targetexpr=\"{E}\"/>"),
     k("send-erroring-typeexpr", Want::Exec, "<send event=\"e\" typeexpr=\"{E}\"/>"),
